@@ -271,4 +271,11 @@ def run(ctx):
         run.instance(R4, {"fn": "base58check", "obligation": "encoder computes the checksum with the same generate_check"}, held=n == 1)
         if n != 1:
             run.finding(Finding(R4, b58.id, "encoder does not use generate_check", site=b58.loc()))
+    R5 = "C10.R5"
+    run.rule(R5, "every slatepack the packer returns went through try_encrypt_payload (which encrypts whenever recipients are given): no condition in between", floor=1)
+    PACK = c.LW + "slatepack::packer::Slatepacker::<'a>::create_slatepack"
+    if ctx.fn(PACK) is None:
+        run.error("C10.R5: Slatepacker::create_slatepack not found")
+    else:
+        c.require_pass(ctx, R5, PACK, c.LW + "slatepack::types::Slatepack::try_encrypt_payload", ("okret",), "create_slatepack Ok requires try_encrypt_payload Ok on every path")
     run.not_decided += ["'no other key decrypts' / 'any payload edit is rejected' (age AEAD semantics)", "that a 4-byte checksum catches every edit (probabilistic)", "round-trip equality (C08)"]
